@@ -75,6 +75,9 @@ type Prop struct {
 	CPUBudget float64
 	// Race asks the driver to run the workers from the -race binary.
 	Race bool
+	// BudgetOutOfDomain: a case that exhausts the CPU or heap budget is outside this property's domain
+	// (the same workload is judged for that by C01); it is skipped and counted, not reported here.
+	BudgetOutOfDomain bool
 	// Post runs in the driver after all cases (cross-process comparisons).  It may add violations.
 	Post func(run *RunInfo) []PostViolation
 	// Extra lets the property add evidence keys after the run.
